@@ -84,6 +84,8 @@ def is_strlike(v):
 def val_eq(a, b):
     """structural equality: python bool or z3 Bool"""
     a, b = deref(a), deref(b)
+    if a is b and not isinstance(a, float):
+        return True
     if is_strlike(a) or is_strlike(b):
         return str_eq(a, b)
     if isinstance(a, Adt) and isinstance(b, Adt):
@@ -94,7 +96,7 @@ def val_eq(a, b):
         ai, bi = a.items, b.items
         if len(ai) != len(bi):
             return False
-        return z_all(val_eq(x, y) for x, y in zip(ai, bi))
+        return z_all(val_eq(x, y) for x, y in zip(ai, bi) if x is not y)
     if isinstance(a, PyMap) and isinstance(b, PyMap):
         if len(a.items) != len(b.items):
             return False
